@@ -18,6 +18,7 @@ func init() {
 		Assumptions: []string{"fmutils.NestedMask.Filter keeps exactly the masked fields, Prune clears exactly the masked fields, proto.Merge copies set fields of src into dst, protoreflect Range stops when the callback returns false"},
 		Run:         runC05,
 		Controls: []Control{
+			{Name: "more-update-mask-widens-nil", File: "pkg/resource/opt.go", Old: "\t\tif request.UpdateMask == nil {\n\t\t\treturn // a nil update mask means all fields are writable anyway\n\t\t}\n", New: "", Expect: "R05.7"},
 			{Name: "overlap-by-raw-prefix", File: "pkg/masks/update.go", Old: "if path == p || strings.HasPrefix(path, p+\".\") || strings.HasPrefix(p, path+\".\") {", New: "if strings.HasPrefix(path, p) || strings.HasPrefix(p, path) {", Expect: "R05.2"},
 			{Name: "remove-validate", File: "pkg/resource/value.go", Old: "\tif err := writer.Validate(value); err != nil {\n\t\treturn nil, err\n\t}\n", New: "", Expect: "R05.1"},
 			{Name: "other-updater", File: "pkg/resource/collection.go", Old: "\t\twriteRequest.changeFn(writer, msg),", New: "\t\twriteRequest.changeFn(writeRequest.fieldUpdater(nil), msg),", Expect: "R05.1"},
@@ -37,6 +38,10 @@ func init() {
 }
 
 func runC05(c *an.Ctx) {
+	r065as(c, "R05.6") // mask paths are compared by whole segments everywhere in pkg/masks (shared with R06.5)
+	c.Min("R05.6", 2)
+	r057(c)
+	c.Min("R05.7", 1)
 	r051(c)
 	r052(c)
 	r053(c)
@@ -665,4 +670,56 @@ func r055(c *an.Ctx, rule string) {
 		"dst.Clear(field) is not guarded by `the mask has no paths below this field`: a mask naming only part of a message field (a.b) clears all of a when the written message lacks it, including parts outside the mask")
 	c.Check(okClear, rule, name+"|clears exactly the masked fields that src lacks", cb.Pos(), "Clear guarded by mask[field] present and !src.Has(field)",
 		"dst fields are cleared without checking that the mask names them and that the written message lacks them")
+}
+
+// r057: "no update mask" means "every writable field" and stays that way through the option plumbing: the request's
+// UpdateMask only ever receives a union with more paths on a path where it is known to be set. A union computed from
+// a nil mask is a mask of just the extra paths: the write then touches only those and every other writable field keeps
+// its old value.
+func r057(c *an.Ctx) {
+	const rule = "R05.7"
+	n := 0
+	for _, fn := range c.Prog.FuncsIn(resPkg) {
+		if c.Prog.IsGenerated(fn.Pos()) {
+			continue
+		}
+		an.Instrs(fn, func(in ssa.Instruction) {
+			st, ok := in.(*ssa.Store)
+			if !ok {
+				return
+			}
+			base, sn, fld, isF := an.FieldOf(st.Addr)
+			if !isF || fld != "UpdateMask" || !strings.HasSuffix(sn, "/pkg/resource.WriteRequest") {
+				return
+			}
+			var union *ssa.Call
+			for _, s0 := range an.Sources(st.Val) {
+				if cl, isCall := s0.(*ssa.Call); isCall && strings.HasSuffix(an.CalleeName(cl), "fieldmaskpb.Union") {
+					union = cl
+				}
+			}
+			if union == nil {
+				return
+			}
+			n++
+			// the current mask is an operand of the union and is known non-nil here
+			guarded := false
+			for _, e := range an.GuardingEdges(st) {
+				x, trueMeansNil, isNil := an.NilTest(e.If.Cond)
+				if !isNil || e.Branch == trueMeansNil {
+					continue
+				}
+				if b2, sn2, f2, isF2 := an.FieldOf(x); isF2 && f2 == "UpdateMask" && sn2 == sn && (b2 == base || an.SameValues(b2, base)) {
+					guarded = true
+				}
+			}
+			top := fn
+			for top.Parent() != nil {
+				top = top.Parent()
+			}
+			c.SawFunc(an.FuncName(top))
+			c.Check(guarded, rule, an.FuncName(top)+"|a nil update mask is never widened into a narrow one", st.Pos(), "the union is taken only where a mask is set",
+				"the request's UpdateMask is replaced by a union of paths on a path where it may be nil: fieldmaskpb.Union(nil, more) is a mask holding only the extra paths, so a write without update mask (which means every writable field) combined with WithMoreUpdatePaths touches only those paths and leaves the other writable fields at their old values")
+		})
+	}
 }
